@@ -39,6 +39,10 @@ def gen_cases(rng, spec, n):
             c = kgen.gen_resource(rng, i)
         elif base == 'victim':
             c = kgen.gen_intr(rng, i)
+        elif base == 'chain':
+            c = kgen.gen_chain(rng, i)
+        elif base == 'untilfail':
+            c = kgen.gen_until_fail(rng, i)        # already a split plan
         elif base == 'store':
             c = kgen.gen_store(rng, i, malformed=malformed)
         else:
@@ -93,6 +97,10 @@ def run_kernel(ctx, prop, spec, n_quick, n_thorough, oracles=(), nontrivial=None
         for p in c.progs:
             for ins in p:
                 hist[ins[0]] += 1
+                if ins[0] in ('allof', 'anyof') and len(ins) == 4 and ins[1] % 2 == 0:
+                    hist['shape:condition written with & / |'] += 1
+                if ins[0] in ('raise', 'fail') and 'Cancelled' in ins:
+                    hist['shape:exception not derived from Exception'] += 1
         hist['kind:' + getattr(c, 'kind', 'corpus')] += 1
         txt = c.text().split('\n', 1)[1]
         nt = (nontrivial or default_nontrivial)(c, a)
